@@ -29,6 +29,9 @@ OPAQUE_INT = ["FirstValid", "Amount", "LastValid", "AssetAmount"]
 TYPE_NAMES = {1: "pay", 2: "keyreg", 3: "acfg", 4: "axfer", 5: "afrz", 6: "appl"}
 OC_NAMES = {0: "NoOp", 1: "OptIn", 2: "CloseOut", 3: "ClearState", 4: "UpdateApplication", 5: "DeleteApplication"}
 
+# named integer constants of the assembler, usable wherever an integer literal is (`int axfer` = `int 4`)
+ANY_NAMES = {0: ["NoOp"], 1: ["pay", "OptIn"], 2: ["keyreg", "CloseOut"], 3: ["acfg", "ClearState"], 4: ["axfer", "UpdateApplication"],
+             5: ["afrz", "DeleteApplication"], 6: ["appl"]}
 FEE_CONSTS = [0, 1, 999, 1000, 1001, 2000, 271999, 272000, 272001, 1000000, MAXU64 - 1, MAXU64]
 GROUP_CONSTS = list(range(0, 18))
 
@@ -59,13 +62,17 @@ class Cfg:
 
 # ------------------------------------------------------------------ operands & conditions
 @st.composite
-def int_const(draw, values, version, allow_named=None):
+def int_const(draw, values, version, allow_named=None, any_named=False):
     v = draw(st.sampled_from(values))
     style = draw(st.sampled_from([0, 0, 0, 1, 2]))
     sp = spell_int(v, style)
     if allow_named and v in allow_named and draw(st.booleans()):
         sp = allow_named[v]
+    elif any_named and v in ANY_NAMES and draw(st.sampled_from([0, 0, 1])):
+        sp = draw(st.sampled_from(ANY_NAMES[v]))
     via = draw(st.sampled_from(["int", "int", "pushint"] if version >= 3 else ["int"]))
+    if not sp[:1].isdigit():
+        via = "int"  # named constants belong to the `int` pseudo-op; `pushint` takes a number
     return ["int", v, sp, via]
 
 
@@ -122,8 +129,11 @@ def read_spec(draw, cfg: Cfg, field: str, version: int, allow_group=True):
 
 
 @st.composite
-def atom(draw, cfg: Cfg, mode: str, version: int, fields: List[str]):
+def atom(draw, cfg: Cfg, mode: str, version: int, fields: List[str], lit_ok: bool = False):
     """one comparison (or opaque atom)"""
+    if lit_ok and cfg.on("literal_operands") and not cfg.allslots and draw(st.sampled_from(range(20))) == 0:
+        # an integer literal as operand of a connective / as a whole condition (`x || 1`, `x && 0`)
+        return ["lit", draw(st.sampled_from([0, 1, 1, 7]))]
     if draw(st.integers(0, 5)) == 0 or not fields:
         f = draw(st.sampled_from(OPAQUE_INT))
         k = draw(st.integers(0, 5))
@@ -139,6 +149,15 @@ def atom(draw, cfg: Cfg, mode: str, version: int, fields: List[str]):
         c = draw(addr_const(cfg, mode, version))
         op = draw(st.sampled_from(["==", "==", "!="]))
     elif field == "Fee":
+        if cfg.group_heavy and cfg.on("fee_vs_min_txn_fee") and draw(st.integers(0, 5)) == 0:
+            # the transaction's own fee bounded from above by a run-time value (`global MinTxnFee`): the tool's
+            # documented heuristic for this transaction; it says nothing about any other group member
+            rd = ["read", {"kind": "txn", "field": "Fee"}]
+            g_ = ["glob", "MinTxnFee"]
+            op = draw(st.sampled_from(["<=", "<", "=="]))
+            if draw(st.booleans()):
+                return ["cmp", op, rd, g_]
+            return ["cmp", {"<=": ">=", "<": ">", "==": "=="}[op], g_, rd]
         rd = draw(read_spec(cfg, field, version))
         # known finding (the fee information is one upper bound: two or more comparisons with constants above
         # the limit can exclude every dangerous fee jointly without the tool noticing): with the feature off a
@@ -147,17 +166,17 @@ def atom(draw, cfg: Cfg, mode: str, version: int, fields: List[str]):
         fee_consts = FEE_CONSTS
         if not cfg.on("fee_constants_above_limit") and cfg.shared["fee_above"] >= 1:
             fee_consts = [c for c in FEE_CONSTS if c <= 272000]
-        c = draw(int_const(fee_consts, version))
+        c = draw(int_const(fee_consts, version, any_named=cfg.on("named_const_for_plain_ints")))
         if c[1] > 272000:
             cfg.shared["fee_above"] += 1
         op = draw(st.sampled_from(CMP_OPS))
     elif field == "GroupSize":
         rd = ["read", {"kind": "global", "field": "GroupSize"}]
-        c = draw(int_const(GROUP_CONSTS, version))
+        c = draw(int_const(GROUP_CONSTS, version, any_named=cfg.on("named_const_for_plain_ints")))
         op = draw(st.sampled_from(CMP_OPS))
     elif field == "GroupIndex":
         rd = ["read", {"kind": "txn", "field": "GroupIndex"}]
-        c = draw(int_const(GROUP_CONSTS[:17], version))
+        c = draw(int_const(GROUP_CONSTS[:17], version, any_named=cfg.on("named_const_for_plain_ints")))
         op = draw(st.sampled_from(CMP_OPS))
     elif field == "TypeEnum":
         rd = draw(read_spec(cfg, field, version))
@@ -204,7 +223,7 @@ def atom(draw, cfg: Cfg, mode: str, version: int, fields: List[str]):
 def cond(draw, cfg: Cfg, mode: str, version: int, fields: List[str], depth: int = 0):
     k = draw(st.integers(0, 9))
     if depth >= 3 or k <= 5:
-        return draw(atom(cfg, mode, version, fields))
+        return draw(atom(cfg, mode, version, fields, lit_ok=depth > 0))
     if k == 6:
         return ["not", draw(cond(cfg, mode, version, fields, depth + 1))]
     a = draw(cond(cfg, mode, version, fields, depth + 1))
@@ -241,6 +260,8 @@ def stmts(draw, cfg: Cfg, mode: str, version: int, fields, subs: List[str], dept
                 kinds += ["carryindex"]
             if subs and version >= 4:
                 kinds += ["passcond"]
+        if cfg.profile == "modelled" and version >= 5 and cfg.on("rot"):
+            kinds += ["rot"]
         if (cfg.profile == "modelled" or cfg.xflag) and cfg.on("xconn"):
             kinds += ["xconn", "xconn"]
         kind = draw(st.sampled_from(kinds))
@@ -265,7 +286,12 @@ def stmts(draw, cfg: Cfg, mode: str, version: int, fields, subs: List[str], dept
                 # reads (and calls, which could hide them) out of loop bodies
                 cfg2 = cfg.derive({"gtxn_reads"})
                 body = draw(stmts(cfg2, mode, version, fields, [], depth + 1, budget, in_sub))
-            out.append(["while", draw(st.integers(1, 3)), body, draw(st.integers(0, 3)), draw(st.booleans())])
+            how_ = draw(st.sampled_from([0, 1, 2]))
+            if how_ == 2 and subs and cfg.on("abs_read_in_loop") and draw(st.booleans()):
+                # rotated loop whose body ends in a call: the block executed after the return is the loop test,
+                # which was already executed on the way into the loop
+                body.append(["call", draw(st.sampled_from(subs))])
+            out.append(["while", draw(st.integers(1, 3)), body, draw(st.integers(0, 3)), how_])
         elif kind == "switch":
             arms = [draw(stmts(cfg, mode, version, fields, subs, depth + 1, budget, in_sub)) for _ in range(draw(st.integers(1, 3)))]
             out.append(["switch", arms, draw(st.sampled_from([0, 0, 1, 2])), draw(st.booleans())])
@@ -302,10 +328,31 @@ def stmts(draw, cfg: Cfg, mode: str, version: int, fields, subs: List[str], dept
         elif kind == "carryindex":
             out.append(["carryindex", draw(st.sampled_from(["gi-1", "gi+1", "int0", "int1"])), draw(st.sampled_from(["FirstValid", "Amount"]))])
         elif kind == "joinflag":
-            out.append(["joinflag", draw(cond(cfg, mode, version, fields)), draw(atom(cfg, mode, version, fields)),
+            out.append(["joinflag", draw(cond(cfg, mode, version, fields)), draw(atom(cfg, mode, version, fields, lit_ok=True)),
                         draw(st.sampled_from(["&&", "&&", "||"])), draw(st.integers(0, 3)), draw(st.booleans())])
         elif kind == "retcheck":
             out.append(["retcheck", draw(cond(cfg, mode, version, fields))])
+        elif kind == "rot":
+            # three or four operands (one read of a governed field, constants of its type) pushed in a drawn order,
+            # rotated by cover n / uncover n (n >= 2), the two on top compared, the rest dropped afterwards
+            a1 = draw(atom(cfg, mode, version, fields))
+            a2 = draw(atom(cfg, mode, version, fields))
+            def _split(a_):
+                if a_[0] != "cmp":
+                    return None
+                r_ = [x for x in (a_[2], a_[3]) if x[0] == "read"]
+                c_ = [x for x in (a_[2], a_[3]) if x[0] in ("int", "addr")]
+                return (r_[0], c_[0]) if len(r_) == 1 and len(c_) == 1 else None
+            s1, s2 = _split(a1), _split(a2)
+            if s1 is None or s2 is None or s1[1][0] != s2[1][0]:
+                out.append(["assert", a1] if version >= 3 else ["pad", 0])
+            else:
+                operands = [s1[0], s1[1], s2[1]]
+                if draw(st.booleans()):
+                    operands.append(s2[1] if draw(st.booleans()) else s1[1])
+                operands = draw(st.permutations(operands))
+                n_ = draw(st.sampled_from([2, len(operands) - 1]))
+                out.append(["rot", list(operands), draw(st.sampled_from(["cover", "uncover"])), n_, a1[1], draw(st.booleans())])
         elif kind == "xconn":
             # a connective whose operands are (partly or all) computed in other blocks: by a value-returning
             # subroutine (`callsub vsK`), or before a `b next; next:` split; then &&/|| and a consumer
@@ -314,7 +361,7 @@ def stmts(draw, cfg: Cfg, mode: str, version: int, fields, subs: List[str], dept
             hows = ["same", "split"] + (["vsub", "vsub"] if version >= 4 else [])
             ops_ = []
             for _k in range(nops):
-                oc = draw(atom(cfg, mode, version, fields)) if draw(st.booleans()) else draw(cond(cfg, mode, version, fields, 2))
+                oc = draw(atom(cfg, mode, version, fields, lit_ok=True)) if draw(st.booleans()) else draw(cond(cfg, mode, version, fields, 2))
                 ops_.append([oc, draw(st.sampled_from(hows))])
             if draw(st.integers(0, 2)) == 0:
                 for o_ in ops_:
@@ -380,6 +427,9 @@ class Lower:
                 self.emit(I("global", "CreatorAddress"))
             else:
                 self.emit(I("addr", o[1]))
+        elif o[0] == "glob":
+            self.emit(I("global", o[1]))
+            self.feats.append("fee_vs_min_txn_fee")
         elif o[0] == "read":
             s = o[1]
             k = s["kind"]
@@ -436,7 +486,7 @@ class Lower:
             self.operand(c[2])
             self.operand(c[3])
             self.emit(I(c[1]))
-            if c[2][0] != "read":
+            if c[2][0] not in ("read", "glob"):
                 self.feats.append("const_left")
                 if c[1] in ("<", "<=", ">", ">="):
                     self.feats.append("const_left_ordered")
@@ -470,6 +520,9 @@ class Lower:
             self.cond(c[2])
             self.emit(I("&&" if k == "and" else "||"))
             self.feats.append(k)
+        elif k == "lit":
+            self.emit(I("int", c[1]))
+            self.feats.append("literal_operand")
         elif k == "true":
             self.emit(I("int", 1))
         elif k == "false":
@@ -598,6 +651,22 @@ class Lower:
             self.feats.append("loop")
             self.emit(I("int", 0))
             self.emit(I("store", slot))
+            if dowhile == 2 and self.version >= 4:
+                # rotated loop: jump to the test, which follows the body (`b test; body: ...; test: c; bnz body`)
+                self.feats.append("rotated_loop")
+                self.emit(I("b", end))
+                self.emit(L(top))
+                self.emit(I("load", slot))
+                self.emit(I("int", 1))
+                self.emit(I("+"))
+                self.emit(I("store", slot))
+                self.stmts(body, in_sub)
+                self.emit(L(end))
+                self.emit(I("load", slot))
+                self.emit(I("int", bound))
+                self.emit(I("<"))
+                self.emit(I("bnz", top))
+                return
             self.emit(L(top))
             if not dowhile:
                 self.emit(I("load", slot))
@@ -727,6 +796,18 @@ class Lower:
                 self.emit(L(rej))
                 self.emit(I("err"))
                 self.emit(L(ok))
+        elif k == "rot":
+            operands, rop, n_, op_, neg = s[1], s[2], s[3], s[4], s[5]
+            self.feats.append(f"rot_{rop}{n_}")
+            for o_ in operands:
+                self.operand(o_)
+            self.emit(I(rop, n_))
+            self.emit(I(op_))
+            if neg:
+                self.emit(I("!"))
+            self.emit(I("assert"))
+            for _ in range(len(operands) - 2):
+                self.emit(I("pop"))
         elif k == "xconn":
             uid, ops_, conns, consumer = s[1], s[2], s[3], s[4]
             self.feats.append("xconn")
@@ -837,6 +918,7 @@ def lower_program(ast: dict, cfg: Cfg) -> dict:
     if ast.get("coalesce"):
         _coalesce_labels(lw)
     if ast.get("intcblock"):
+        lw.intc_pos = ast.get("intc_pos", 0)
         _use_intcblock(lw, ast["intcblock"])
     feats = sorted(set(lw.feats))
     return {"version": ast["version"], "items": lw.items, "mode": ast["mode"], "features": feats, "structured": True}
@@ -908,7 +990,7 @@ def _use_intcblock(lw: Lower, how: int):
     for it in lw.items:
         if it[0] == "I" and it[1] in ("int", "pushint"):
             k = consts.index(parse_int_tok(it[2][0]))
-            if k < 4 and how in (1, 3, 4):
+            if k < 4 and how in (1, 3, 4, 5):
                 it[1], it[2] = f"intc_{k}", []
             else:
                 it[1], it[2] = "intc", [str(k)]
@@ -931,6 +1013,14 @@ def _use_intcblock(lw: Lower, how: int):
                 lw.items.insert(k + 1, I("intcblock", *(consts[1:] + consts[:1])))
                 lw.feats.append("second_intcblock_in_subroutine")
                 break
+    if how == 5 and len(consts) >= 2:
+        # a second intcblock (constants rotated) right after some label of the program: it is executed on the
+        # paths through that label only, from then on every intc pushes another constant
+        labs = [k for k, it in enumerate(lw.items) if it[0] == "L"]
+        if labs:
+            k = labs[lw.intc_pos % len(labs)]
+            lw.items.insert(k + 1, I("intcblock", *(consts[1:] + consts[:1])))
+            lw.feats.append("second_intcblock_in_later_block")
     lw.items.insert(pos, I("intcblock", *consts))
     lw.feats.append("intcblock")
 
@@ -1009,6 +1099,10 @@ def semantic_program(draw, profile: str = "modelled", disabled=(), focus: Option
         ast["intcblock"] = 1
     if second_intcblock and cfg.profile == "modelled" and nsubs and draw(st.integers(0, 2)) == 0:
         ast["intcblock"] = 4
+    elif cfg.profile == "modelled" and cfg.on("intcblock_not_in_entry_block") and cfg.on("second_intcblock") and version >= 2 and draw(st.sampled_from(range(10))) == 9:
+        # (programs whose reference is R-AVM only: the generator's annotations no longer describe the conditions)
+        ast["intcblock"] = 5
+        ast["intc_pos"] = draw(st.integers(0, 30))
     prog = lower_program(ast, cfg)
     if chain:
         prog["features"] = sorted(set(prog["features"]) | {"deep_call_chain"})
